@@ -622,9 +622,19 @@ def run_impl(case):
             variants.append(go())
         res = {"variants": variants,
                "facts": [{k: v for k, v in f.items() if k != "flags"} for f in element_facts([first] + els)]}
-        # the flow of the first element itself, fed to a plain Sequence of the tail
-        if first["k"] in ("gen", "iter"):
-            res["ref"] = reference(els, first["flow"], None)
+        # the effective first element: arguments without data (SetContext, ...) before it are skipped by Source
+        args = [first] + els
+        eff = None
+        for i, f in enumerate(res["facts"]):
+            if f["ctor"] is not None:
+                break
+            if not f["nodata"]:
+                eff = i
+                break
+        res["eff"] = eff
+        # the flow of the first element itself, fed to a plain chain of the tail elements
+        if eff is not None and args[eff]["k"] in ("gen", "iter"):
+            res["ref"] = reference(args[eff + 1:], args[eff]["flow"], None)
         return res
     if op == "flags":
         el, err = _construct(lambda: build(case["spec"]))
@@ -866,16 +876,20 @@ def oracle(case, res):
                 return f"a Sequence without data elements must be the identity, got {vs[0]}; {what}"
         return None
     if op == "source":
-        vs = res["variants"]
-        exp = _init_expectation(res["facts"][1:])
-        what = f"first {case['first']} elements {case['els']}"
-        n = len(case["els"])
-        names = [("Source(first, *els)()" if c == n + 1 else f"Sequence(*els[{c}:]).run(Source(first, *els[:{c}])())")
-                 for c in case["cuts"]]
-        f0 = res["facts"][0]
-        first_ok = f0["ctor"] is None and not f0["nodata"] and case["first"]["k"] in ("gen", "iter", "seq")
-        if not first_ok:
+        eff = res.get("eff")
+        args = [case["first"]] + case["els"]
+        if eff is None or args[eff]["k"] not in ("gen", "iter", "seq"):
             return None      # first-element rules are covered by the correspondence, not by this statement
+        n = len(case["els"])
+        # the cuts whose Source contains the effective first element (arguments before it carry no data)
+        keep = [i for i, c in enumerate(case["cuts"]) if c == n + 1 or c >= eff]
+        vs = [res["variants"][i] for i in keep]
+        exp = _init_expectation(res["facts"][eff + 1:])
+        what = f"first {case['first']} elements {case['els']}"
+        names = [("Source(first, *els)()" if c == n + 1 else f"Sequence(*els[{c}:]).run(Source(first, *els[:{c}])())")
+                 for c in (case["cuts"][i] for i in keep)]
+        if not vs:
+            return None
         for v, nm in zip(vs, names):
             if exp == "reject":
                 if v != {"e": "LenaTypeError", "phase": "init"}:
@@ -1325,6 +1339,13 @@ def gen_cases(ctx):
         else:
             # a Sequence of (non-sequence) elements: iterated, its arguments become the values of the flow
             first = {"k": "seq", "els": [e for e in (gen_atom(rng, new_state()) for _ in range(rng.randint(0, 3)))]}
+        if rng.random() < 0.1:
+            # arguments without data before the first data element
+            for _k in range(rng.choice([1, 1, 2])):
+                els = [first] + els
+                first = rng.choice([{"k": "setctx"}, {"k": "syn", "run": rng.choice([0, 2]), "call": rng.random() < 0.5,
+                                                      "fill": 0, "compute": 0, "nodata": True}])
+            n = len(els)
         yield ({"op": "source", "first": first, "els": els, "cuts": list(range(n + 2))})
 
 
